@@ -304,4 +304,844 @@ theorem checkedPow_eq {w n : Nat} {a : List Nat} (hw : 1 ≤ w) (hn : 1 ≤ n) (
     · simp only [if_true, Bool.or_true]; rfl
 
 end UI
+
+/-! ## B. signed `pow` -/
+
+namespace Pow
+
+theorem int_pow_nonneg (z : Int) (e : Nat) (h : ¬ (z < 0 ∧ e % 2 = 1)) :
+    z ^ e = ((z.natAbs ^ e : Nat) : Int) := by
+  push_cast
+  by_cases hz : z < 0
+  · have he : Even e := by rw [Nat.even_iff]; omega
+    rw [abs_of_neg hz, he.neg_pow]
+  · rw [abs_of_nonneg (by omega)]
+
+theorem int_pow_neg (z : Int) (e : Nat) (hz : z < 0) (he : e % 2 = 1) :
+    z ^ e = -((z.natAbs ^ e : Nat) : Int) := by
+  push_cast
+  rw [abs_of_neg hz, (Nat.odd_iff.mpr he).neg_pow, neg_neg]
+
+end Pow
+
+namespace II
+
+theorem overflowingPow_spec {w n : Nat} {a : List Nat} (hw : 2 ≤ w) (hn : 1 ≤ n) (ha : WF w n a)
+    (e : Nat) : OvfS w n (overflowingPow w a e) (S w a ^ e) := by
+  have hw1 : 1 ≤ w := by omega
+  obtain ⟨hua, hUa⟩ := unsignedAbs_spec hw hn ha
+  obtain ⟨h1, h2, h3⟩ := UI.u_overflowingPow_nat hw1 hn hua e
+  rw [hUa] at h2 h3
+  have hM := M_pos w n
+  have hMe := M_even hw1 hn
+  unfold overflowingPow
+  rw [isNegative_eq_decide hw1 hn ha, Pow.and_one_beq]
+  generalize UI.overflowingPow w (unsignedAbs w a) e = r at *
+  obtain ⟨u, f⟩ := r
+  simp only at h1 h2 h3 ⊢
+  generalize hP : (S w a).natAbs ^ e = P at *
+  have hul := U_lt h1
+  by_cases hneg : S w a < 0 ∧ e % 2 = 1
+  · -- negative result
+    have hz : S w a ^ e = -(P : Int) := by rw [Pow.int_pow_neg _ _ hneg.1 hneg.2, hP]
+    have hPpos : 1 ≤ P := by
+      rw [← hP]; exact Nat.pow_pos (by omega)
+    simp only [hneg.1, hneg.2, decide_true, Bool.and_self, if_true]
+    rw [hz]
+    obtain ⟨g1, g2, _⟩ := overflowingNeg_spec hw hn h1
+    have g1' : WF w n (wrappingNeg w u) := g1
+    have hval : S w (wrappingNeg w u) = wrapS (M w n) (-(P : Int)) := by
+      unfold wrappingNeg
+      rw [g2]
+      obtain ⟨k, hk⟩ := S_spec h1
+      obtain ⟨q, hq⟩ := exists_of_mod h2
+      rw [hk, show -((U w u : Int) + k * M w n) = -(P : Int) + (q - k) * M w n by rw [hq]; ring,
+        wrapS_add_mul]
+    refine ⟨g1, hval, ?_⟩
+    apply bool_eq_decide
+    rw [Bool.or_eq_true, h3, isNegative_eq_decide hw1 hn g1', hval]
+    by_cases hov : M w n ≤ P
+    · unfold repS; constructor
+      · intro _; omega
+      · intro _; exact Or.inl hov
+    · have hwu : wrapU (M w n) (-(P : Int)) = M w n - P :=
+        wrapU_eq_of (k := -1) (by omega) (by push_cast [show P ≤ M w n by omega]; ring)
+      unfold wrapS toInt repS; rw [hwu]
+      simp only [Bool.not_eq_true', decide_eq_false_iff_not]
+      push_cast [show P ≤ M w n by omega]
+      split_ifs <;> omega
+  · have hz : S w a ^ e = (P : Int) := by rw [Pow.int_pow_nonneg _ _ hneg, hP]
+    have hd : (decide (S w a < 0) && decide (e % 2 = 1)) = false := by
+      rw [Bool.and_eq_false_iff]; simp only [decide_eq_false_iff_not]; tauto
+    simp only [hd, Bool.false_eq_true, if_false]
+    rw [hz]
+    have hval : S w u = wrapS (M w n) (P : Int) := by
+      rw [S_eq h1]; unfold wrapS; rw [wrapU_natCast, h2]
+    refine ⟨h1, hval, ?_⟩
+    apply bool_eq_decide
+    rw [Bool.or_eq_true, h3, isNegative_eq_decide hw1 hn h1, decide_eq_true_iff]
+    by_cases hov : M w n ≤ P
+    · unfold repS; constructor
+      · intro _; omega
+      · intro _; exact Or.inl hov
+    · rw [Nat.mod_eq_of_lt (by omega)] at h2
+      rw [S_eq h1, h2]; unfold toInt repS
+      split_ifs <;> omega
+
+end II
+
+/-! ### projections (both signednesses) -/
+namespace Pow
+theorem and_one_beq0 (p : Nat) : (p &&& 1 == 0) = !(p &&& 1 == 1) := by
+  rw [Nat.and_one_is_mod]
+  rcases Nat.mod_two_eq_zero_or_one p with h | h <;> rw [h] <;> rfl
+
+theorem and_one_bne0 (p : Nat) : (p &&& 1 != 0) = (p &&& 1 == 1) := by
+  rw [Nat.and_one_is_mod]
+  rcases Nat.mod_two_eq_zero_or_one p with h | h <;> rw [h] <;> rfl
+
+/-- congruent bases have congruent powers -/
+theorem pow_congr (u k m : Int) : ∀ e : Nat, ∃ j : Int, (u + k * m) ^ e = u ^ e + j * m
+  | 0 => ⟨0, by simp⟩
+  | e + 1 => by
+    obtain ⟨j, hj⟩ := pow_congr u k m e
+    refine ⟨j * u + u ^ e * k + j * k * m, ?_⟩
+    rw [pow_succ, hj]; ring
+end Pow
+
+namespace UI
+
+theorem saturatingPow_spec {w n : Nat} {a : List Nat} (hw : 1 ≤ w) (hn : 1 ≤ n) (ha : WF w n a)
+    (e : Nat) :
+    WF w n (saturatingPow w a e) ∧
+    (U w (saturatingPow w a e) : Int) = Spec.clamp false (M w n) ((U w a : Int) ^ e) := by
+  unfold saturatingPow; rw [ha.1]
+  exact saturateUp_spec (overflowingPow_spec hw hn ha e) (by positivity)
+
+/-- `BUint::pow`: panics exactly in debug builds when `a ^ e` does not fit; otherwise the wrapped
+    (in debug: exact) power -/
+theorem pow_spec {w n : Nat} {a : List Nat} (hw : 1 ≤ w) (hn : 1 ≤ n) (ha : WF w n a) (e : Nat)
+    (dbg : Bool) :
+    (pow w dbg a e = Outcome.panic ↔ (dbg = true ∧ ¬ repU (M w n) ((U w a : Int) ^ e))) ∧
+    (∀ r, pow w dbg a e = Outcome.ok r →
+      WF w n r ∧ (U w r : Int) = wrapU (M w n) ((U w a : Int) ^ e) ∧
+      (dbg = true → (U w r : Int) = (U w a : Int) ^ e)) := by
+  have h := overflowingPow_spec hw hn ha e
+  unfold pow strictPow
+  rw [checkedPow_eq hw hn ha, wrappingPow_eq hw hn ha]
+  cases dbg
+  · simp only [Bool.false_eq_true, if_false, false_and, iff_false, false_implies, and_true]
+    refine ⟨by simp, ?_⟩
+    intro r hr
+    cases hr
+    exact h.wrapping
+  · simp only [if_true, true_and, true_implies]
+    refine ⟨h.strict.1, ?_⟩
+    intro r hr
+    obtain ⟨g1, g2⟩ := h.strict.2 r hr
+    refine ⟨g1, ?_, g2⟩
+    rw [g2, wrapU_of_rep]
+    rw [← g2]; exact ⟨by omega, by have := U_lt g1; omega⟩
+
+end UI
+
+namespace II
+
+/-- `BInt::checked_pow` (written separately in Rust) is the projection of `overflowing_pow` -/
+theorem checkedPow_eq {w n : Nat} {a : List Nat} (hw : 2 ≤ w) (hn : 1 ≤ n) (ha : WF w n a)
+    (e : Nat) : checkedPow w a e = tupleToOption (overflowingPow w a e) := by
+  obtain ⟨hua, _⟩ := unsignedAbs_spec hw hn ha
+  unfold checkedPow overflowingPow
+  rw [UI.checkedPow_eq (by omega) hn hua, Pow.and_one_beq0]
+  generalize UI.overflowingPow w (unsignedAbs w a) e = r
+  obtain ⟨u, f⟩ := r
+  cases f <;> cases isNegative w a <;> cases (e &&& 1 == 1) <;>
+    simp [tupleToOption]
+
+theorem wrappingPow_spec {w n : Nat} {a : List Nat} (hw : 1 ≤ w) (hn : 1 ≤ n) (ha : WF w n a)
+    (e : Nat) :
+    WF w n (wrappingPow w a e) ∧ S w (wrappingPow w a e) = wrapS (M w n) (S w a ^ e) := by
+  obtain ⟨h1, h2, _⟩ := UI.u_overflowingPow_nat hw hn ha e
+  unfold wrappingPow
+  rw [UI.wrappingPow_eq hw hn ha]
+  refine ⟨h1, ?_⟩
+  obtain ⟨q, hq⟩ := exists_of_mod h2
+  obtain ⟨k, hk⟩ := S_spec ha
+  obtain ⟨j, hj⟩ := Pow.pow_congr (U w a) k (M w n) e
+  apply S_eq_wrapS h1 (k := q + j)
+  rw [hk, hj]; push_cast at hq; rw [hq]; ring
+
+theorem saturatingPow_spec {w n : Nat} {a : List Nat} (hw : 2 ≤ w) (hn : 1 ≤ n) (ha : WF w n a)
+    (e : Nat) :
+    WF w n (saturatingPow w a e) ∧
+    S w (saturatingPow w a e) = Spec.clamp true (M w n) (S w a ^ e) := by
+  have hw1 : 1 ≤ w := by omega
+  have hm := M_even hw1 hn
+  have hM := M_pos w n
+  by_cases hN : S w a < 0 ∧ e % 2 = 1
+  · refine saturate_spec hw1 hn (overflowingPow_spec hw hn ha e) (WF_iMin hw1 hn) ?_ _
+      (by unfold saturatingPow
+          rw [checkedPow_eq hw hn ha, Pow.and_one_bne0, Pow.and_one_beq,
+            isNegative_eq_decide hw1 hn ha, ha.1]
+          simp only [hN.1, hN.2, decide_true, Bool.and_self, if_true]; rfl)
+    intro hr
+    rw [Pow.int_pow_neg _ _ hN.1 hN.2] at hr ⊢
+    rw [S_iMin hw1 hn, clampS_lo hm (by unfold repS at hr; omega)]
+  · refine saturate_spec hw1 hn (overflowingPow_spec hw hn ha e) (WF_iMax hw1 hn) ?_ _
+      (by unfold saturatingPow
+          rw [checkedPow_eq hw hn ha, Pow.and_one_bne0, Pow.and_one_beq,
+            isNegative_eq_decide hw1 hn ha, ha.1]
+          have hd : (decide (S w a < 0) && decide (e % 2 = 1)) = false := by
+            rw [Bool.and_eq_false_iff]; simp only [decide_eq_false_iff_not]; tauto
+          simp only [hd, Bool.false_eq_true, if_false]; rfl)
+    intro hr
+    rw [Pow.int_pow_nonneg _ _ hN] at hr ⊢
+    rw [S_iMax hw1 hn, clampS_hi hm (by unfold repS at hr; omega)]
+
+/-- on overflow `saturating_pow` returns MIN exactly for a negative base with an odd exponent -/
+theorem saturatingPow_side {w n : Nat} {a : List Nat} (hw : 2 ≤ w) (hn : 1 ≤ n) (ha : WF w n a)
+    (e : Nat) (hov : ¬ repS (M w n) (S w a ^ e)) :
+    ((S w a < 0 ∧ e % 2 = 1) → saturatingPow w a e = iMin w n) ∧
+    (¬ (S w a < 0 ∧ e % 2 = 1) → saturatingPow w a e = iMax w n) := by
+  have hw1 : 1 ≤ w := by omega
+  have hnone : checkedPow w a e = none := by
+    rw [checkedPow_eq hw hn ha]
+    exact (overflowingPow_spec hw hn ha e).checked.1.2 hov
+  unfold saturatingPow
+  rw [hnone, Pow.and_one_bne0, Pow.and_one_beq, isNegative_eq_decide hw1 hn ha, ha.1]
+  constructor
+  · intro h; simp [h.1, h.2]
+  · intro h
+    have hd : (decide (S w a < 0) && decide (e % 2 = 1)) = false := by
+      rw [Bool.and_eq_false_iff]; simp only [decide_eq_false_iff_not]; tauto
+    simp [hd]
+
+theorem pow_spec {w n : Nat} {a : List Nat} (hw : 2 ≤ w) (hn : 1 ≤ n) (ha : WF w n a) (e : Nat)
+    (dbg : Bool) :
+    (pow w dbg a e = Outcome.panic ↔ (dbg = true ∧ ¬ repS (M w n) (S w a ^ e))) ∧
+    (∀ r, pow w dbg a e = Outcome.ok r →
+      WF w n r ∧ S w r = wrapS (M w n) (S w a ^ e) ∧ (dbg = true → S w r = S w a ^ e)) := by
+  have h := overflowingPow_spec hw hn ha e
+  unfold pow strictPow
+  rw [checkedPow_eq hw hn ha]
+  cases dbg
+  · simp only [Bool.false_eq_true, if_false, false_and, iff_false, false_implies, and_true]
+    refine ⟨by simp, ?_⟩
+    intro r hr
+    cases hr
+    exact wrappingPow_spec (by omega) hn ha e
+  · simp only [if_true, true_and, true_implies]
+    refine ⟨h.strict.1, ?_⟩
+    intro r hr
+    obtain ⟨g1, g2⟩ := h.strict.2 r hr
+    refine ⟨g1, ?_, g2⟩
+    rw [g2, wrapS_of_rep (M_pos w n)]
+    rw [← g2]; exact S_repS (by omega) hn g1
+
+end II
+
+/-! ## C. integer logarithms -/
+namespace Ilog
+
+/-- the arithmetic of one level of Jaffer's recursion: with `L' = log_{b²} ⌊k / b⌋` and
+    `q = ⌊k / b⌋ / (b²)^L'`, `log_b k` is `2 L' + 1` when `q < b` and `2 L' + 2` otherwise, and the
+    returned cofactor is `⌊k / b ^ log_b k⌋` -/
+theorem log_step {b k : Nat} (hb : 2 ≤ b) (hk : b ≤ k) :
+    (k / b / (b * b) ^ Nat.log (b * b) (k / b) < b →
+      Nat.log b k = 2 * Nat.log (b * b) (k / b) + 1 ∧
+      k / b / (b * b) ^ Nat.log (b * b) (k / b) = k / b ^ Nat.log b k) ∧
+    (b ≤ k / b / (b * b) ^ Nat.log (b * b) (k / b) →
+      Nat.log b k = 2 * Nat.log (b * b) (k / b) + 2 ∧
+      k / b / (b * b) ^ Nat.log (b * b) (k / b) / b = k / b ^ Nat.log b k) := by
+  have hbpos : 0 < b := by omega
+  have hkb : k / b ≠ 0 := by
+    have : 1 ≤ k / b := (Nat.le_div_iff_mul_le hbpos).2 (by omega)
+    omega
+  have hbb : 1 < b * b := by nlinarith
+  generalize hL : Nat.log (b * b) (k / b) = L
+  have hsq : (b * b) ^ L = b ^ (2 * L) := by rw [← Nat.pow_two, ← Nat.pow_mul]
+  have hpp : 0 < b ^ (2 * L + 1) := Nat.pow_pos hbpos
+  -- `b^(2L+1) ≤ k < b^(2L+3)`
+  have h1 : b ^ (2 * L + 1) ≤ k := by
+    have := Nat.pow_log_le_self (b * b) hkb
+    rw [hL, hsq, Nat.le_div_iff_mul_le hbpos] at this
+    rw [Nat.pow_succ]; exact this
+  have h2 : k < b ^ (2 * L + 3) := by
+    have := Nat.lt_pow_succ_log_self hbb (k / b)
+    rw [hL, Nat.div_lt_iff_lt_mul hbpos, Nat.succ_eq_add_one, ← Nat.pow_two, ← Nat.pow_mul,
+      ← Nat.pow_succ] at this
+    exact this
+  have hq : k / b / (b * b) ^ L = k / b ^ (2 * L + 1) := by
+    rw [Nat.div_div_eq_div_mul, hsq, Nat.pow_succ, Nat.mul_comm]
+  rw [hq]
+  constructor
+  · intro hlt
+    have h3 : k < b ^ (2 * L + 1 + 1) := by
+      rw [Nat.div_lt_iff_lt_mul hpp] at hlt
+      rw [Nat.pow_succ, Nat.mul_comm]; exact hlt
+    have := Nat.log_eq_of_pow_le_of_lt_pow h1 h3
+    exact ⟨this, by rw [this]⟩
+  · intro hge
+    have h3 : b ^ (2 * L + 2) ≤ k := by
+      rw [Nat.le_div_iff_mul_le hpp] at hge
+      rw [Nat.pow_succ, Nat.mul_comm]; exact hge
+    have := Nat.log_eq_of_pow_le_of_lt_pow h3 h2
+    refine ⟨this, ?_⟩
+    rw [this, Nat.div_div_eq_div_mul, ← Nat.pow_succ]
+
+
+theorem gt_iff {w n : Nat} {a b : List Nat} (ha : WF w n a) (hb : WF w n b) :
+    CmpImpl.gt UI.cmp a b = true ↔ U w b < U w a := by
+  unfold CmpImpl.gt; rw [UI.cmp_spec ha hb, ← compare_gt_iff_gt]
+  cases compare (U w a) (U w b) <;> simp
+
+theorem le_iff {w n : Nat} {a b : List Nat} (ha : WF w n a) (hb : WF w n b) :
+    CmpImpl.le UI.cmp a b = true ↔ U w a ≤ U w b := by
+  unfold CmpImpl.le; rw [UI.cmp_spec ha hb, ← not_lt, ← compare_gt_iff_gt]
+  cases compare (U w a) (U w b) <;> simp
+
+/-- the unsuffixed `mul` does not panic (in either build mode) when the product fits -/
+theorem mul_ok {w n : Nat} {a b : List Nat} (ha : WF w n a) (hb : WF w n b)
+    (h : U w a * U w b < M w n) (dbg : Bool) :
+    ∃ r, UI.mul w dbg a b = .ok r ∧ WF w n r ∧ U w r = U w a * U w b := by
+  obtain ⟨h1, h2⟩ := UI.mul_spec ha hb dbg
+  have hrep : repU (M w n) ((U w a : Int) * U w b) := ⟨by positivity, by exact_mod_cast h⟩
+  cases hm : UI.mul w dbg a b with
+  | panic => exact absurd hrep (h1.1 hm).2
+  | ok r =>
+    obtain ⟨g1, g2, _⟩ := h2 r hm
+    refine ⟨r, rfl, g1, ?_⟩
+    rw [wrapU_of_rep hrep] at g2; exact_mod_cast g2
+
+/-- `div` (= `wrapping_div`) by a non-zero divisor, granted `div_rem_unchecked` -/
+theorem div_ok {w n : Nat} (hD : UDivSpec w n) {a b : List Nat} (ha : WF w n a) (hb : WF w n b)
+    (hb0 : U w b ≠ 0) :
+    ∃ d, UI.div w a b = .ok d ∧ WF w n d ∧ U w d = U w a / U w b := by
+  obtain ⟨q, r, h1, h2, _, h4, _⟩ := hD a b ha hb hb0
+  have hz : isZero b = false := (DivL.isZero_false_iff_U (w := w) b).2 hb0
+  refine ⟨q, ?_, h2, h4⟩
+  unfold UI.div UI.wrappingDiv UI.checkedDiv
+  rw [hz, h1]; rfl
+
+theorem u32Shl1_eq {m : Nat} (h : 2 * m < 2 ^ 32) : Prim.u32Shl1 m = 2 * m := by
+  unfold Prim.u32Shl1
+  rw [Nat.shiftLeft_eq, Nat.pow_one, Nat.mod_eq_of_lt (by omega)]; omega
+
+theorem u32Add_ok {a b : Nat} (h : a + b < 2 ^ 32) (dbg : Bool) : Prim.u32Add dbg a b = .ok (a + b) := by
+  unfold Prim.u32Add; rw [if_pos h]
+
+/-- `iilog(m, b, k)` returns `(m * (log_b k + 1), ⌊k / b ^ log_b k⌋)`; the fuel is never exhausted and
+    no inner `mul` / `+` / `div` panics, in either build mode, provided `b * k` fits the type and the
+    first component fits `u32`. -/
+theorem iilog_spec {w n : Nat} (hD : UDivSpec w n) (dbg : Bool) :
+    ∀ (f m : Nat) (b k : List Nat), WF w n b → WF w n k → 2 ≤ U w b → U w b * U w k < M w n →
+      U w k < f → m * (Nat.log (U w b) (U w k) + 1) < 2 ^ 32 →
+      ∃ q, UI.iilog dbg w f m b k = .ok (m * (Nat.log (U w b) (U w k) + 1), q) ∧ WF w n q ∧
+        U w q = U w k / U w b ^ Nat.log (U w b) (U w k)
+  | 0, _, _, _, _, _, _, _, hf, _ => by omega
+  | f + 1, m, b, k, hb, hk, hb2, hbk, hf, hm => by
+    unfold UI.iilog
+    by_cases hgt : U w k < U w b
+    · rw [if_pos ((gt_iff hb hk).2 hgt), Nat.log_of_lt hgt]
+      exact ⟨k, by simp, hk, by simp⟩
+    · have hle : U w b ≤ U w k := by omega
+      rw [if_neg (by rw [gt_iff hb hk]; exact hgt)]
+      simp only
+      -- b.mul(b)
+      have hbb : U w b * U w b < M w n := Nat.lt_of_le_of_lt (Nat.mul_le_mul_left _ hle) hbk
+      obtain ⟨bb, e1, wbb, ubb⟩ := mul_ok hb hb hbb dbg
+      rw [e1]; simp only
+      -- k.div_rem_unchecked(b).0
+      obtain ⟨q0, r0, e2, wq0, _, uq0, _⟩ := hD k b hk hb (by omega)
+      rw [e2]; simp only
+      -- facts about the logarithm
+      obtain ⟨s1, s2⟩ := log_step hb2 hle
+      have hLpos : 1 ≤ Nat.log (U w b) (U w k) :=
+        (Nat.le_log_iff_pow_le (by omega) (by omega)).2 (by rw [Nat.pow_one]; exact hle)
+      have hdl : U w k / U w b < U w k := Nat.div_lt_self (by omega) (by omega)
+      have hmul : U w k / U w b * U w b ≤ U w k := Nat.div_mul_le_self _ _
+      have hL2 : 2 * Nat.log (U w b * U w b) (U w k / U w b) + 1 ≤ Nat.log (U w b) (U w k) := by
+        by_cases hc : U w k / U w b / (U w b * U w b) ^ Nat.log (U w b * U w b) (U w k / U w b) < U w b
+        · have := (s1 hc).1; omega
+        · have := (s2 (by omega)).1; omega
+      have hm2 : 2 * m < 2 ^ 32 := by
+        have : m * 2 ≤ m * (Nat.log (U w b) (U w k) + 1) := Nat.mul_le_mul_left _ (by omega)
+        omega
+      rw [u32Shl1_eq hm2]
+      -- the recursive call
+      have hrec := iilog_spec hD dbg f (2 * m) bb q0 wbb wq0 (by rw [ubb]; nlinarith)
+        (by rw [ubb, uq0]
+            calc U w b * U w b * (U w k / U w b) = U w b * (U w k / U w b * U w b) := by ring
+              _ ≤ U w b * U w k := Nat.mul_le_mul_left _ hmul
+              _ < M w n := hbk)
+        (by rw [uq0]; omega)
+        (by rw [ubb, uq0]
+            have : 2 * m * (Nat.log (U w b * U w b) (U w k / U w b) + 1)
+                ≤ m * (Nat.log (U w b) (U w k) + 1) := by
+              rw [Nat.mul_comm 2 m, Nat.mul_assoc]; exact Nat.mul_le_mul_left _ (by omega)
+            omega)
+      obtain ⟨q, e3, wq, uq⟩ := hrec
+      rw [ubb, uq0] at e3 uq
+      rw [e3]; simp only
+      by_cases hc : U w q < U w b
+      · rw [if_pos ((gt_iff hb wq).2 hc)]
+        obtain ⟨t1, t2⟩ := s1 (by rw [← uq]; exact hc)
+        refine ⟨q, ?_, wq, by rw [uq, t2]⟩
+        rw [t1]; congr 2; ring
+      · rw [if_neg (by rw [gt_iff hb wq]; exact hc)]
+        obtain ⟨t1, t2⟩ := s2 (by rw [← uq]; omega)
+        have hsum : 2 * m * (Nat.log (U w b * U w b) (U w k / U w b) + 1) + m
+            = m * (Nat.log (U w b) (U w k) + 1) := by rw [t1]; ring
+        rw [u32Add_ok (by rw [hsum]; exact hm) dbg]; simp only
+        obtain ⟨d, e4, wd, ud⟩ := div_ok hD wq hb (by omega)
+        rw [e4]; simp only
+        exact ⟨d, by rw [hsum], wd, by rw [ud, uq, t2]⟩
+
+
+theorem U_two {w n : Nat} (hn : 1 ≤ n) : U w (two n) = 2 := U_fromDigit 2 hn
+theorem WF_two {w n : Nat} (hw : 2 ≤ w) (hn : 1 ≤ n) : WF w n (two n) :=
+  WF_fromDigit hn (by have := B_half_ge_two hw; have := B_even (show 1 ≤ w by omega); omega)
+theorem U_ten {w n : Nat} (hn : 1 ≤ n) : U w (ten n) = 10 := U_fromDigit 10 hn
+theorem WF_ten {w n : Nat} (h10 : 10 < B w) (hn : 1 ≤ n) : WF w n (ten n) := WF_fromDigit hn h10
+
+/-- a logarithm of a `W`-bit number is below `W` -/
+theorem log_lt_bits {b a W : Nat} (hb : 2 ≤ b) (ha : a < 2 ^ W) (ha0 : a ≠ 0) : Nat.log b a < W := by
+  have h1 := Nat.pow_log_le_self b ha0
+  have h2 : 2 ^ Nat.log b a ≤ b ^ Nat.log b a := Nat.pow_le_pow_left hb _
+  exact (Nat.pow_lt_pow_iff_right (show 1 < 2 by omega)).1 (by omega)
+
+/-- `checked_ilog2` -/
+theorem checkedIlog2_eq {w n : Nat} {a : List Nat} (ha : WF w n a) :
+    UI.checkedIlog2 w a = if U w a = 0 then none else some (Nat.log 2 (U w a)) := by
+  unfold UI.checkedIlog2 Prim.u32CheckedSub
+  rw [Bits.bits_spec ha]; unfold Spec.bitLen
+  by_cases h0 : U w a = 0
+  · simp [h0]
+  · simp [h0, Nat.log2_eq_log_two]
+
+/-- the call `iilog(1, base, self / base)` made by `checked_ilog` / `checked_ilog10` -/
+theorem iilog_top {w n : Nat} (hD : UDivSpec w n) (hW : w * n < 2 ^ 32) (dbg : Bool)
+    {a b k : List Nat} (ha : WF w n a) (hb : WF w n b) (hk : WF w n k) (hb2 : 2 ≤ U w b)
+    (hle : U w b ≤ U w a) (hku : U w k = U w a / U w b) :
+    ∃ q, UI.iilog dbg w (U w k + 1) 1 b k = .ok (Nat.log (U w b) (U w a), q) := by
+  have hL1 : 1 ≤ Nat.log (U w b) (U w a) :=
+    (Nat.le_log_iff_pow_le (by omega) (by omega)).2 (by rw [Nat.pow_one]; exact hle)
+  have hlog : Nat.log (U w b) (U w k) + 1 = Nat.log (U w b) (U w a) := by
+    rw [hku, Nat.log_div_base]; omega
+  have hbits : Nat.log (U w b) (U w a) < w * n :=
+    log_lt_bits hb2 (by have := U_lt ha; rwa [Bits.M_eq_two_pow] at this) (by omega)
+  obtain ⟨q, h, _, _⟩ := iilog_spec hD dbg (U w k + 1) 1 b k hb hk hb2
+    (by rw [hku]
+        calc U w b * (U w a / U w b) ≤ U w a := Nat.mul_div_le _ _
+          _ < M w n := U_lt ha)
+    (by omega) (by rw [hlog, Nat.one_mul]; omega)
+  rw [hlog, Nat.one_mul] at h
+  exact ⟨q, h⟩
+
+end Ilog
+
+namespace UI
+
+/-- `BUint::checked_ilog`: `Some(⌊log_base self⌋)` when `self ≥ 1` and `base ≥ 2`, `None` otherwise;
+    never an internal panic -/
+theorem checkedIlog_spec {w n : Nat} (hw : 2 ≤ w) (hn : 1 ≤ n) (hD : UDivSpec w n)
+    (hW : w * n < 2 ^ 32) {a b : List Nat} (ha : WF w n a) (hb : WF w n b) (dbg : Bool) :
+    checkedIlog dbg w a b =
+      .ok (if 1 ≤ U w a ∧ 2 ≤ U w b then some (Nat.log (U w b) (U w a)) else none) := by
+  unfold checkedIlog
+  rw [ha.1, cmp_spec hb (Ilog.WF_two hw hn), Ilog.U_two hn]
+  rcases Nat.lt_trichotomy (U w b) 2 with hlt | heq | hgt
+  · rw [Nat.compare_eq_lt.mpr hlt]
+    simp only; rw [if_neg (by omega)]
+  · rw [Nat.compare_eq_eq.mpr heq]
+    simp only; rw [Ilog.checkedIlog2_eq ha, heq]
+    by_cases h0 : U w a = 0
+    · rw [if_pos h0, if_neg (by omega)]
+    · rw [if_neg h0, if_pos (by omega)]
+  · rw [Nat.compare_eq_gt.mpr hgt]
+    simp only
+    by_cases h0 : U w a = 0
+    · rw [if_pos ((DivL.isZero_iff_U (w := w) a).2 h0), if_neg (by omega)]
+    · rw [if_neg (by rw [DivL.isZero_iff_U (w := w) a]; exact h0)]
+      by_cases hlt : U w a < U w b
+      · rw [if_pos ((Ilog.gt_iff hb ha).2 hlt), if_pos (by omega), Nat.log_of_lt hlt]
+      · rw [if_neg (by rw [Ilog.gt_iff hb ha]; exact hlt), if_pos (by omega)]
+        obtain ⟨k, e1, wk, uk⟩ := Ilog.div_ok hD ha hb (by omega)
+        rw [e1]; simp only
+        obtain ⟨q, e2⟩ := Ilog.iilog_top hD hW dbg ha hb wk (by omega) (by omega) uk
+        rw [e2]
+
+/-- `BUint::checked_ilog10` (digit types of at least 4 bits, so that `TEN` is a digit) -/
+theorem checkedIlog10_spec {w n : Nat} (h10 : 10 < B w) (hn : 1 ≤ n) (hD : UDivSpec w n)
+    (hW : w * n < 2 ^ 32) {a : List Nat} (ha : WF w n a) (dbg : Bool) :
+    checkedIlog10 dbg w a = .ok (if 1 ≤ U w a then some (Nat.log 10 (U w a)) else none) := by
+  unfold checkedIlog10
+  rw [ha.1]
+  have wt := Ilog.WF_ten h10 hn
+  have ut := Ilog.U_ten (w := w) hn
+  by_cases h0 : U w a = 0
+  · rw [if_pos ((DivL.isZero_iff_U (w := w) a).2 h0), if_neg (by omega)]
+  · rw [if_neg (by rw [DivL.isZero_iff_U (w := w) a]; exact h0)]
+    have hr : (if 1 ≤ U w a then some (Nat.log 10 (U w a)) else none)
+        = some (Nat.log 10 (U w a)) := if_pos (by omega)
+    rw [hr]
+    by_cases hlt : U w a < 10
+    · rw [if_pos ((Ilog.gt_iff wt ha).2 (by rw [ut]; exact hlt)), Nat.log_of_lt hlt]
+    · rw [if_neg (by rw [Ilog.gt_iff wt ha, ut]; exact hlt)]
+      obtain ⟨q, r, e1, e2, e3, wq⟩ := u_divRemDigit_spec (w := w) (d := 10) (by omega) h10 ha
+      rw [e1]; simp only
+      have uk : U w q = U w a / U w (ten n) := by
+        rw [ut]
+        have : U w a = 10 * U w q + r := by omega
+        rw [this, Nat.mul_add_div (by omega), Nat.div_eq_of_lt e3]; omega
+      obtain ⟨q', e4⟩ := Ilog.iilog_top hD hW dbg ha wt wq (by omega) (by omega) uk
+      rw [e4, ut]
+
+end UI
+
+/-! ### panicking wrappers and the signed layer -/
+namespace UI
+
+theorem ilog2_spec {w n : Nat} {a : List Nat} (ha : WF w n a) :
+    ilog2 w a = if 1 ≤ U w a then .ok (Nat.log 2 (U w a)) else .panic := by
+  unfold ilog2; rw [Ilog.checkedIlog2_eq ha]
+  by_cases h0 : U w a = 0
+  · rw [if_pos h0, if_neg (by omega)]; rfl
+  · rw [if_neg h0, if_pos (by omega)]; rfl
+
+theorem ilog10_spec {w n : Nat} (h10 : 10 < B w) (hn : 1 ≤ n) (hD : UDivSpec w n)
+    (hW : w * n < 2 ^ 32) {a : List Nat} (ha : WF w n a) (dbg : Bool) :
+    ilog10 dbg w a = if 1 ≤ U w a then .ok (Nat.log 10 (U w a)) else .panic := by
+  unfold ilog10; rw [checkedIlog10_spec h10 hn hD hW ha dbg]
+  by_cases h0 : 1 ≤ U w a
+  · rw [if_pos h0, if_pos h0]; rfl
+  · rw [if_neg h0, if_neg h0]; rfl
+
+theorem ilog_spec {w n : Nat} (hw : 2 ≤ w) (hn : 1 ≤ n) (hD : UDivSpec w n)
+    (hW : w * n < 2 ^ 32) {a b : List Nat} (ha : WF w n a) (hb : WF w n b) (dbg : Bool) :
+    ilog dbg w a b =
+      if 1 ≤ U w a ∧ 2 ≤ U w b then .ok (Nat.log (U w b) (U w a)) else .panic := by
+  unfold ilog
+  rw [ha.1, checkedIlog_spec hw hn hD hW ha hb dbg]
+  have h1 := Ilog.le_iff hb (WF_one (show 1 ≤ w by omega) hn)
+  rw [U_one hn] at h1
+  by_cases hb1 : U w b ≤ 1
+  · rw [if_pos (h1.2 hb1), if_neg (by omega)]
+  · rw [if_neg (by rw [h1]; exact hb1)]
+    by_cases h0 : 1 ≤ U w a ∧ 2 ≤ U w b
+    · rw [if_pos h0, if_pos h0]; rfl
+    · rw [if_neg h0, if_neg h0]; rfl
+
+end UI
+
+namespace Ilog
+theorem ile_iff {w n : Nat} (hw : 1 ≤ w) (hn : 1 ≤ n) {a b : List Nat} (ha : WF w n a)
+    (hb : WF w n b) : CmpImpl.le (II.cmp w) a b = true ↔ S w a ≤ S w b := by
+  unfold CmpImpl.le; rw [II.cmp_spec hw hn ha hb, ← not_lt, ← compare_gt_iff_gt]
+  cases compare (S w a) (S w b) <;> simp
+end Ilog
+
+namespace II
+
+theorem checkedIlog_spec {w n : Nat} (hw : 2 ≤ w) (hn : 1 ≤ n) (hD : UDivSpec w n)
+    (hW : w * n < 2 ^ 32) {a b : List Nat} (ha : WF w n a) (hb : WF w n b) (dbg : Bool) :
+    checkedIlog dbg w a b =
+      .ok (if 1 ≤ S w a ∧ 2 ≤ S w b then some (Nat.log (S w b).toNat (S w a).toNat) else none) := by
+  have hw1 : 1 ≤ w := by omega
+  unfold checkedIlog
+  rw [isNegative_eq_decide hw1 hn ha, isNegative_eq_decide hw1 hn hb]
+  by_cases hneg : S w b < 0 ∨ S w a < 0
+  · have : (decide (S w b < 0) || decide (S w a < 0)) = true := by simpa using hneg
+    rw [if_pos this, if_neg (by omega)]
+  · have : ¬ (decide (S w b < 0) || decide (S w a < 0)) = true := by simpa using hneg
+    rw [if_neg this, UI.checkedIlog_spec hw hn hD hW ha hb dbg]
+    have ea := S_of_nonneg ha (by omega)
+    have eb := S_of_nonneg hb (by omega)
+    rw [ea, eb]; simp only [Int.toNat_natCast]
+    congr 1
+    by_cases hc : 1 ≤ U w a ∧ 2 ≤ U w b
+    · rw [if_pos hc, if_pos (by omega)]
+    · rw [if_neg hc, if_neg (by omega)]
+
+theorem checkedIlog2_spec {w n : Nat} (hw : 2 ≤ w) (hn : 1 ≤ n) {a : List Nat} (ha : WF w n a) :
+    checkedIlog2 w a = if 1 ≤ S w a then some (Nat.log 2 (S w a).toNat) else none := by
+  have hw1 : 1 ≤ w := by omega
+  unfold checkedIlog2
+  rw [isNegative_eq_decide hw1 hn ha]
+  by_cases hneg : S w a < 0
+  · rw [if_pos (by simpa using hneg), if_neg (by omega)]
+  · rw [if_neg (by simpa using hneg), Ilog.checkedIlog2_eq ha]
+    have ea := S_of_nonneg ha (by omega)
+    rw [ea]; simp only [Int.toNat_natCast]
+    by_cases hc : U w a = 0
+    · rw [if_pos hc, if_neg (by omega)]
+    · rw [if_neg hc, if_pos (by omega)]
+
+theorem checkedIlog10_spec {w n : Nat} (hw : 2 ≤ w) (h10 : 10 < B w) (hn : 1 ≤ n)
+    (hD : UDivSpec w n) (hW : w * n < 2 ^ 32) {a : List Nat} (ha : WF w n a) (dbg : Bool) :
+    checkedIlog10 dbg w a =
+      .ok (if 1 ≤ S w a then some (Nat.log 10 (S w a).toNat) else none) := by
+  have hw1 : 1 ≤ w := by omega
+  unfold checkedIlog10
+  rw [isNegative_eq_decide hw1 hn ha]
+  by_cases hneg : S w a < 0
+  · rw [if_pos (by simpa using hneg), if_neg (by omega)]
+  · rw [if_neg (by simpa using hneg), UI.checkedIlog10_spec h10 hn hD hW ha dbg]
+    have ea := S_of_nonneg ha (by omega)
+    rw [ea]; simp only [Int.toNat_natCast]
+    congr 1
+    by_cases hc : 1 ≤ U w a
+    · rw [if_pos hc, if_pos (by omega)]
+    · rw [if_neg hc, if_neg (by omega)]
+
+theorem ilog_spec {w n : Nat} (hw : 2 ≤ w) (hn : 1 ≤ n) (hD : UDivSpec w n)
+    (hW : w * n < 2 ^ 32) {a b : List Nat} (ha : WF w n a) (hb : WF w n b) (dbg : Bool) :
+    ilog dbg w a b =
+      if 1 ≤ S w a ∧ 2 ≤ S w b then .ok (Nat.log (S w b).toNat (S w a).toNat) else .panic := by
+  have hw1 : 1 ≤ w := by omega
+  unfold ilog
+  rw [ha.1, isNegative_eq_decide hw1 hn ha]
+  have h1 := Ilog.ile_iff hw1 hn hb (WF_one hw1 hn)
+  rw [S_one hw hn] at h1
+  by_cases hb1 : S w b ≤ 1
+  · rw [if_pos (h1.2 hb1), if_neg (by omega)]
+  · rw [if_neg (by rw [h1]; exact hb1)]
+    by_cases hneg : S w a < 0
+    · rw [if_pos (by simpa using hneg), if_neg (by omega)]
+    · rw [if_neg (by simpa using hneg), UI.ilog_spec hw hn hD hW ha hb dbg]
+      have ea := S_of_nonneg ha (by omega)
+      have eb := S_of_nonneg hb (by omega)
+      rw [ea, eb]; simp only [Int.toNat_natCast]
+      by_cases hc : 1 ≤ U w a ∧ 2 ≤ U w b
+      · rw [if_pos hc, if_pos (by omega)]
+      · rw [if_neg hc, if_neg (by omega)]
+
+theorem ilog2_spec {w n : Nat} (hw : 2 ≤ w) (hn : 1 ≤ n) {a : List Nat} (ha : WF w n a) :
+    ilog2 w a = if 1 ≤ S w a then .ok (Nat.log 2 (S w a).toNat) else .panic := by
+  have hw1 : 1 ≤ w := by omega
+  unfold ilog2
+  rw [isNegative_eq_decide hw1 hn ha]
+  by_cases hneg : S w a < 0
+  · rw [if_pos (by simpa using hneg), if_neg (by omega)]
+  · rw [if_neg (by simpa using hneg), UI.ilog2_spec ha]
+    have ea := S_of_nonneg ha (by omega)
+    rw [ea]; simp only [Int.toNat_natCast]
+    by_cases hc : 1 ≤ U w a
+    · rw [if_pos hc, if_pos (by omega)]
+    · rw [if_neg hc, if_neg (by omega)]
+
+theorem ilog10_spec {w n : Nat} (hw : 2 ≤ w) (h10 : 10 < B w) (hn : 1 ≤ n)
+    (hD : UDivSpec w n) (hW : w * n < 2 ^ 32) {a : List Nat} (ha : WF w n a) (dbg : Bool) :
+    ilog10 dbg w a = if 1 ≤ S w a then .ok (Nat.log 10 (S w a).toNat) else .panic := by
+  have hw1 : 1 ≤ w := by omega
+  unfold ilog10
+  rw [isNegative_eq_decide hw1 hn ha]
+  by_cases hneg : S w a < 0
+  · rw [if_pos (by simpa using hneg), if_neg (by omega)]
+  · rw [if_neg (by simpa using hneg), UI.ilog10_spec h10 hn hD hW ha dbg]
+    have ea := S_of_nonneg ha (by omega)
+    rw [ea]; simp only [Int.toNat_natCast]
+    by_cases hc : 1 ≤ U w a
+    · rw [if_pos hc, if_pos (by omega)]
+    · rw [if_neg hc, if_neg (by omega)]
+
+end II
+
+namespace Pow
+open Spec
+
+/-! ## D. the executable specifications of Spec/Pow.lean compute the mathematical objects -/
+
+theorem ilog_eq_log (b : Nat) : ∀ a : Nat, ilog b a = Nat.log b a := by
+  intro a
+  induction a using Nat.strong_induction_on with
+  | _ a ih =>
+    rw [ilog]
+    by_cases h : b ≤ a ∧ 2 ≤ b
+    · rw [dif_pos h, ih (a / b) (Nat.div_lt_self (by omega) (by omega)),
+        Nat.log_of_one_lt_of_le (by omega) h.1]
+    · rw [dif_neg h]
+      by_cases hb : 2 ≤ b
+      · rw [Nat.log_of_lt (by omega)]
+      · rw [Nat.log_of_left_le_one (by omega)]
+
+theorem powMod_eq (m a : Nat) : ∀ e : Nat, powMod m a e = a ^ e % m := by
+  intro e
+  induction e using Nat.strong_induction_on with
+  | _ e ih =>
+    rw [powMod]
+    by_cases h : e = 0
+    · rw [dif_pos h, h, Nat.pow_zero]
+    · rw [dif_neg h]
+      simp only
+      rw [ih (e / 2) (by omega), ← Nat.mul_mod, ← Nat.pow_add]
+      by_cases ho : e % 2 = 1
+      · rw [if_pos ho, Nat.mod_mul_mod, ← Nat.pow_succ]
+        congr 2; omega
+      · rw [if_neg ho]; congr 2; omega
+
+theorem powCappedLoop_gt (cap a : Nat) (ha : 1 ≤ a) : ∀ (e acc : Nat),
+    (cap < powCappedLoop cap a e acc ↔ cap < acc * a ^ e) ∧
+    (acc * a ^ e ≤ cap → powCappedLoop cap a e acc = acc * a ^ e)
+  | 0, acc => by simp [powCappedLoop]
+  | e + 1, acc => by
+    unfold powCappedLoop
+    have hmono : acc ≤ acc * a ^ (e + 1) := Nat.le_mul_of_pos_right _ (Nat.pow_pos ha)
+    by_cases h : cap < acc
+    · rw [if_pos h]
+      exact ⟨⟨fun _ => by omega, fun _ => h⟩, fun hc => by omega⟩
+    · rw [if_neg h]
+      have := powCappedLoop_gt cap a ha e (acc * a)
+      rw [show acc * a * a ^ e = acc * a ^ (e + 1) by rw [Nat.pow_succ]; ring] at this
+      exact this
+
+/-- the early cut-off decides the comparison with the exact power -/
+theorem powCapped_gt_iff (cap a e : Nat) : cap < powCapped cap a e ↔ cap < a ^ e := by
+  unfold powCapped
+  by_cases h0 : a = 0
+  · rw [if_pos h0, h0]
+    by_cases he : e = 0
+    · rw [if_pos he, he]; simp
+    · rw [if_neg he, Nat.zero_pow (by omega)]
+  · rw [if_neg h0]
+    by_cases h1 : a = 1
+    · rw [if_pos h1, h1, Nat.one_pow]
+    · rw [if_neg h1, (powCappedLoop_gt cap a (by omega) e 1).1, Nat.one_mul]
+
+/-- `powWrapped` is the pattern of the exact power -/
+theorem powWrapped_eq {m : Nat} (hm : 0 < m) (a : Int) (e : Nat) :
+    powWrapped m a e = wrapU m (a ^ e) := by
+  unfold powWrapped
+  rw [powMod_eq]
+  obtain ⟨k, hk⟩ := wrapU_spec hm a
+  obtain ⟨j, hj⟩ := Pow.pow_congr (wrapU m a) k m e
+  rw [← hk] at hj
+  rw [hj, wrapU_add_mul, ← Int.natCast_pow, wrapU_natCast]
+
+theorem dec_not {P Q : Prop} [Decidable P] [Decidable Q] (h : P ↔ ¬ Q) :
+    decide P = !decide Q := by
+  by_cases hq : Q <;> simp_all
+
+/-- `powOverflows` decides representability of the exact power (unsigned: for a non-negative base) -/
+theorem powOverflows_eq {signed : Bool} {m : Nat} (hm : 0 < m) (he2 : m = 2 * (m / 2)) (a : Int)
+    (e : Nat) (hu : signed = false → 0 ≤ a) :
+    powOverflows signed m a e = !rep signed m (a ^ e) := by
+  unfold powOverflows rep
+  cases signed
+  · have ha := hu rfl
+    simp only [Bool.false_eq_true, if_false]
+    simp only [powCapped_gt_iff]
+    rw [Pow.int_pow_nonneg a e (by omega)]
+    generalize a.natAbs ^ e = P
+    apply dec_not; unfold repU
+    constructor <;> intro _ <;> omega
+  · simp only [if_true]
+    by_cases hneg : a < 0 ∧ e % 2 = 1
+    · rw [if_pos hneg]; simp only [powCapped_gt_iff]
+      rw [Pow.int_pow_neg a e hneg.1 hneg.2]
+      generalize a.natAbs ^ e = P
+      apply dec_not; unfold repS
+      constructor <;> intro _ <;> omega
+    · rw [if_neg hneg]; simp only [powCapped_gt_iff]
+      rw [Pow.int_pow_nonneg a e hneg]
+      generalize a.natAbs ^ e = P
+      apply dec_not; unfold repS
+      constructor <;> intro _ <;> omega
+
+/-- the executable `Spec.overflowingPow` is `Spec.overflowing` of the exact power -/
+theorem spec_overflowingPow_eq {signed : Bool} {m : Nat} (hm : 0 < m) (he2 : m = 2 * (m / 2)) (a : Int)
+    (e : Nat) (hu : signed = false → 0 ≤ a) :
+    overflowingPow signed m a e = overflowing signed m (a ^ e) := by
+  unfold overflowingPow overflowing
+  rw [powWrapped_eq hm, powOverflows_eq hm he2 a e hu]
+
+theorem spec_checkedPow_eq {signed : Bool} {m : Nat} (hm : 0 < m) (he2 : m = 2 * (m / 2)) (a : Int)
+    (e : Nat) (hu : signed = false → 0 ≤ a) :
+    checkedPow signed m a e = checked signed m (a ^ e) := by
+  unfold checkedPow checked
+  rw [powWrapped_eq hm, powOverflows_eq hm he2 a e hu]
+  cases rep signed m (a ^ e) <;> rfl
+
+end Pow
+
+namespace Pow
+
+/-! ### the fuel-exhausted equations of the three loops are dead code -/
+
+theorem loopO_step {w : Nat} (f : Nat) (x y : List Nat) (ov : Bool) (pow : Nat) :
+    UI.powLoopO w (f + 1) x y ov pow =
+      if pow > 1 then
+        UI.powLoopO w f (UI.overflowingMul w x x).1
+          (if pow &&& 1 == 1 then ((UI.overflowingMul w y x).1, ov || (UI.overflowingMul w y x).2)
+            else (y, ov)).1
+          ((if pow &&& 1 == 1 then ((UI.overflowingMul w y x).1, ov || (UI.overflowingMul w y x).2)
+            else (y, ov)).2 || (UI.overflowingMul w x x).2) (pow >>> 1)
+      else (x, y, ov) := rfl
+
+theorem loopO_fuel {w : Nat} : ∀ (f : Nat) (x y : List Nat) (ov : Bool) (pow : Nat), pow ≤ f + 1 →
+    UI.powLoopO w (f + 1) x y ov pow = UI.powLoopO w f x y ov pow
+  | 0, x, y, ov, pow, h => by
+    rw [loopO_step, if_neg (by omega)]; rfl
+  | f + 1, x, y, ov, pow, h => by
+    rw [loopO_step (f + 1) x y ov pow, loopO_step f x y ov pow]
+    by_cases hp : pow > 1
+    · rw [if_pos hp, if_pos hp]
+      exact loopO_fuel f _ _ _ _ (by rw [shr_one]; omega)
+    · rw [if_neg hp, if_neg hp]
+
+/-- any fuel `≥ pow - 1` gives the same result as the fuel `pow` used by `overflowing_pow` -/
+theorem loopO_fuel_irrel {w : Nat} (x y : List Nat) (ov : Bool) (pow : Nat) : ∀ d : Nat,
+    UI.powLoopO w (pow + d) x y ov pow = UI.powLoopO w pow x y ov pow
+  | 0 => rfl
+  | d + 1 => by
+    rw [← Nat.add_assoc, loopO_fuel _ _ _ _ _ (by omega)]; exact loopO_fuel_irrel x y ov pow d
+
+end Pow
+
+namespace UI
+
+/-- `checked_pow` on naturals -/
+theorem checkedPow_nat {w n : Nat} {a : List Nat} (hw : 1 ≤ w) (hn : 1 ≤ n) (ha : WF w n a)
+    (e : Nat) :
+    (checkedPow w a e = none ↔ M w n ≤ U w a ^ e) ∧
+    (∀ r, checkedPow w a e = some r → WF w n r ∧ U w r = U w a ^ e) := by
+  obtain ⟨h1, h2, h3⟩ := u_overflowingPow_nat hw hn ha e
+  rw [checkedPow_eq hw hn ha]
+  refine ⟨by rw [tupleToOption_none_iff, h3], ?_⟩
+  intro r hr
+  rw [tupleToOption_some_iff] at hr
+  obtain ⟨hf, rfl⟩ := hr
+  have : ¬ M w n ≤ U w a ^ e := fun hc => by rw [h3.2 hc] at hf; cases hf
+  exact ⟨h1, by rw [h2, Nat.mod_eq_of_lt (by omega)]⟩
+
+/-- `checked_pow` returns `Some` exactly when the power fits -/
+theorem checkedPow_isSome_iff {w n : Nat} {a : List Nat} (hw : 1 ≤ w) (hn : 1 ≤ n) (ha : WF w n a)
+    (e : Nat) : (∃ r, checkedPow w a e = some r) ↔ U w a ^ e < M w n := by
+  obtain ⟨h1, _⟩ := checkedPow_nat hw hn ha e
+  constructor
+  · rintro ⟨r, hr⟩
+    by_contra hc
+    rw [h1.2 (by omega)] at hr; cases hr
+  · intro hlt
+    cases hc : checkedPow w a e with
+    | none => have := h1.1 hc; omega
+    | some r => exact ⟨r, rfl⟩
+
+theorem strictPow_nat {w n : Nat} {a : List Nat} (hw : 1 ≤ w) (hn : 1 ≤ n) (ha : WF w n a)
+    (e : Nat) :
+    (strictPow w a e = .panic ↔ M w n ≤ U w a ^ e) ∧
+    (∀ r, strictPow w a e = .ok r → WF w n r ∧ U w r = U w a ^ e) := by
+  obtain ⟨h1, h2⟩ := checkedPow_nat hw hn ha e
+  unfold strictPow
+  exact ⟨by rw [expect_panic_iff, h1], fun r hr => h2 r ((expect_ok_iff _ _).1 hr)⟩
+
+end UI
+
+namespace Ilog
+/-- `Nat.log b a` is the greatest `k` with `b ^ k ≤ a` -/
+theorem log_greatest {b a : Nat} (hb : 2 ≤ b) (ha : 1 ≤ a) :
+    b ^ Nat.log b a ≤ a ∧ ∀ k, b ^ k ≤ a → k ≤ Nat.log b a :=
+  ⟨Nat.pow_log_le_self b (by omega),
+   fun _ hk => (Nat.le_log_iff_pow_le (by omega) (by omega)).2 hk⟩
+end Ilog
 end Bnum
